@@ -623,6 +623,147 @@ theorem rpc_batch_entrywise (h : List Put) (hok : ∀ p ∈ h, IdOK p.1) (ec tc 
   · intro q hq b hb
     exact List.mem_filterMap.2 ⟨q, hq, by rw [hb]; rfl⟩
 
+/-! ## reads that fail under the running server (closed handle, unreadable record) -/
+
+private theorem batchLoopAt_all_readable (rd : Readable) (st : Store) (mk : Nat → VaaId) :
+    ∀ seqs : List Nat, (∀ q ∈ seqs, rd (mk q) = true) →
+      batchLoopAt rd st mk seqs = .ok (seqs.filterMap fun s => (getSignedVAABytes st (mk s)).map fun b => (s, b)) := by
+  intro seqs
+  induction seqs with
+  | nil => intro _; rfl
+  | cons s r ih =>
+    intro h
+    have hs : rd (mk s) = true := h s (by simp)
+    have hr := ih (fun q hq => h q (by simp [hq]))
+    cases hg : getSignedVAABytes st (mk s) with
+    | none => simp [batchLoopAt, getAt, hs, hg, hr]
+    | some b => simp [batchLoopAt, getAt, hs, hg, hr]
+
+private theorem batchLoopAt_ok_readable (rd : Readable) (st : Store) (mk : Nat → VaaId) :
+    ∀ (seqs : List Nat) (out : List (Nat × Bytes)), batchLoopAt rd st mk seqs = .ok out → ∀ q ∈ seqs, rd (mk q) = true := by
+  intro seqs
+  induction seqs with
+  | nil => intro _ _ q hq; cases hq
+  | cons s r ih =>
+    intro out h q hq
+    cases hs : rd (mk s) with
+    | false => simp [batchLoopAt, getAt, hs] at h
+    | true =>
+      have hrest : ∃ o, batchLoopAt rd st mk r = .ok o := by
+        cases hg : getSignedVAABytes st (mk s) with
+        | none => simp [batchLoopAt, getAt, hs, hg] at h; exact ⟨_, h⟩
+        | some b =>
+          cases hr : batchLoopAt rd st mk r with
+          | error e => simp [batchLoopAt, getAt, hs, hg, hr] at h
+          | ok o => exact ⟨o, rfl⟩
+      obtain ⟨o, ho⟩ := hrest
+      rcases List.mem_cons.1 hq with rfl | hq
+      · exact hs
+      · exact ih o ho q hq
+
+/-- With every read succeeding the fallible handlers ARE the handlers of the theorems above. -/
+theorem rpc_at_all_readable (rd : Readable) (hrd : ∀ id, rd id = true) (st : Store) (ec tc : Int) (s : List Char) (seq : Nat) (seqs : List Nat) (hasId : Bool) :
+    rpcGetSignedVAAAt rd st hasId ec s tc seq = rpcGetSignedVAA st hasId ec s tc seq ∧
+    rpcNonGovBatchAt rd st ec s tc seqs = rpcNonGovBatch st ec s tc seqs := by
+  constructor
+  · unfold rpcGetSignedVAAAt rpcGetSignedVAA getAt
+    cases hasId <;> simp only [Bool.not_true, Bool.not_false, Bool.false_eq_true, if_false, if_true]
+    cases decodeEmitterAddress s with
+    | error e => rfl
+    | ok a => simp only [hrd, if_true]; cases getSignedVAABytes st _ <;> rfl
+  · unfold rpcNonGovBatchAt rpcNonGovBatch
+    by_cases hn : seqs.length > 20
+    · simp [hn]
+    · simp only [hn, if_false]
+      cases decodeEmitterAddress s with
+      | error e => rfl
+      | ok a => exact batchLoopAt_all_readable rd st _ seqs (fun q _ => hrd _)
+
+/-- "A call that answers OK is stream-exact", whatever reads failed: a batch that is answered without an error was answered from
+reads that all succeeded, and is the answer of the readable store — `rpc_batch_exact` / `rpc_batch_entrywise` apply to it. An
+unreadable record can only turn the answer into an error, never into a shorter list. -/
+theorem rpc_batch_at_ok_exact (rd : Readable) (st : Store) (ec tc : Int) (s : List Char) (seqs : List Nat) (out : List (Nat × Bytes))
+    (h : rpcNonGovBatchAt rd st ec s tc seqs = .ok out) :
+    rpcNonGovBatch st ec s tc seqs = .ok out ∧
+    ∃ a, decodeEmitterAddress s = .ok a ∧ ∀ q ∈ seqs, rd ⟨narrow16 ec, a, narrow16 tc, q⟩ = true := by
+  unfold rpcNonGovBatchAt at h
+  unfold rpcNonGovBatch
+  by_cases hn : seqs.length > 20
+  · simp [hn] at h
+  · simp only [hn, if_false] at h ⊢
+    cases hd : decodeEmitterAddress s with
+    | error e => rw [hd] at h; cases h
+    | ok a =>
+      rw [hd] at h
+      have hr := batchLoopAt_ok_readable rd st _ seqs out h
+      refine ⟨?_, a, rfl, hr⟩
+      rw [← h]
+      exact (batchLoopAt_all_readable rd st _ seqs hr).symm
+
+/-- A well-formed batch that names an identifier whose read fails is answered with `Internal` (the pinned behaviour: an error makes
+no statement about the stream). -/
+theorem rpc_batch_at_unreadable_fails (rd : Readable) (st : Store) (ec tc : Int) (s : List Char) (a : Bytes) (seqs : List Nat)
+    (hn : seqs.length ≤ 20) (hd : decodeEmitterAddress s = .ok a) (q : Nat) (hq : q ∈ seqs) (hu : rd ⟨narrow16 ec, a, narrow16 tc, q⟩ = false) :
+    rpcNonGovBatchAt rd st ec s tc seqs = .error .internal := by
+  have hn' : ¬ seqs.length > 20 := by omega
+  unfold rpcNonGovBatchAt
+  simp only [hn', if_false, hd]
+  generalize hmk : (fun s => (⟨narrow16 ec, a, narrow16 tc, s⟩ : VaaId)) = mk
+  have hu' : rd (mk q) = false := by rw [← hmk]; exact hu
+  clear hn hn' hd hu hmk
+  induction seqs with
+  | nil => cases hq
+  | cons x r ih =>
+    rcases List.mem_cons.1 hq with rfl | hq
+    · simp [batchLoopAt, getAt, hu']
+    · have := ih hq
+      cases hx : rd (mk x) with
+      | false => simp [batchLoopAt, getAt, hx]
+      | true =>
+        cases hg : getSignedVAABytes st (mk x) with
+        | none => simp [batchLoopAt, getAt, hx, hg, this]
+        | some b => simp [batchLoopAt, getAt, hx, hg, this]
+
+/-- The single lookup: an OK answer is the readable store's answer, and so is `NotFound`; a failing read gives `Internal`. -/
+theorem rpc_get_at_exact (rd : Readable) (st : Store) (ec tc : Int) (s : List Char) (seq : Nat) (hasId : Bool) :
+    (∀ b, rpcGetSignedVAAAt rd st hasId ec s tc seq = .ok b → rpcGetSignedVAA st hasId ec s tc seq = .ok b) ∧
+    (rpcGetSignedVAAAt rd st hasId ec s tc seq = .error .notFound → rpcGetSignedVAA st hasId ec s tc seq = .error .notFound) := by
+  unfold rpcGetSignedVAAAt rpcGetSignedVAA getAt
+  cases hasId
+  · simp
+  · simp only [Bool.not_true, Bool.false_eq_true, if_false]
+    cases decodeEmitterAddress s with
+    | error e => simp
+    | ok a =>
+      simp only
+      cases rd ⟨narrow16 ec, a, narrow16 tc, seq⟩
+      · simp
+      · simp only [if_true]
+        cases getSignedVAABytes st ⟨narrow16 ec, a, narrow16 tc, seq⟩ <;> simp
+
+/-- Why every lookup error but not-found has to fail the batch: the variant that skips them all answers a stream that holds
+sequences 7 and 9 with the empty list once the store cannot be read — an OK answer that is not the stream's. -/
+theorem rpc_batch_skip_errors_witness :
+    ∃ (st : Store) (mk : Nat → VaaId), batchLoopAt (fun _ => true) st mk [7, 8, 9] = .ok [(7, [1]), (9, [2])] ∧
+      batchLoopSkip (fun _ => false) st mk [7, 8, 9] = [] ∧ batchLoopAt (fun _ => false) st mk [7, 8, 9] = .error .internal :=
+  ⟨[(key ⟨2, [], 4, 7⟩, [1]), (key ⟨2, [], 4, 9⟩, [2])], fun q => ⟨2, [], 4, q⟩, by rfl, by decide, by rfl⟩
+
+-- non-vacuity of the fallible handlers: the store of the witness, sequence 8 unreadable
+private def tinyStore : Store := [(key ⟨2, List.replicate 32 0, 4, 7⟩, [1]), (key ⟨2, List.replicate 32 0, 4, 9⟩, [2])]
+private def zeroHex : List Char := List.replicate 64 '0'
+example : decodeEmitterAddress zeroHex = .ok (List.replicate 32 0) := by rfl
+example : rpcNonGovBatchAt (fun id => id.sequence != 8) tinyStore 2 zeroHex 4 [7, 9] = .ok [(7, [1]), (9, [2])] := by rfl
+example : rpcNonGovBatch tinyStore 2 zeroHex 4 [7, 9] = .ok [(7, [1]), (9, [2])] :=
+  (rpc_batch_at_ok_exact (fun id => id.sequence != 8) tinyStore 2 4 zeroHex [7, 9] _ (by rfl)).1
+example : rpcNonGovBatchAt (fun id => id.sequence != 8) tinyStore 2 zeroHex 4 [7, 8, 9] = .error .internal :=
+  rpc_batch_at_unreadable_fails _ tinyStore 2 4 zeroHex (List.replicate 32 0) [7, 8, 9] (by decide) (by rfl) 8 (by decide) (by rfl)
+example : rpcGetSignedVAAAt (fun _ => false) tinyStore true 2 zeroHex 4 7 = .error .internal := by rfl
+example : rpcGetSignedVAAAt (fun id => id.sequence != 8) tinyStore true 2 zeroHex 4 7 = .ok [1] ∧
+    rpcGetSignedVAA tinyStore true 2 zeroHex 4 7 = .ok [1] :=
+  ⟨by rfl, (rpc_get_at_exact (fun id => id.sequence != 8) tinyStore 2 4 zeroHex 7 true).1 _ (by rfl)⟩
+example : (rpcGetSignedVAAAt (fun _ => true) tinyStore true 2 zeroHex 4 8 = rpcGetSignedVAA tinyStore true 2 zeroHex 4 8) :=
+  (rpc_at_all_readable (fun _ => true) (fun _ => rfl) tinyStore 2 4 zeroHex 8 [] true).1
+
 /-! ## non-vacuity: a concrete store with look-alike target chains 2 / 25 and an overwrite -/
 
 private def mk (tc seq : Nat) (pl : Bytes) : Vaa :=
